@@ -228,6 +228,22 @@ def run_driver_parallel(blocks, jobs=None, timeout=3600):
     return results
 
 
+# letters whose Unicode case mapping is irregular (KELVIN SIGN, LONG S, dotless i, I with dot): a case-insensitive ABNF string
+# must not accept them for k / s / i, whatever `str.lower`, `str.casefold` or `re.IGNORECASE` think
+CASE_PARTNERS = {"k": ["\u212a"], "K": ["\u212a"], "s": ["\u017f"], "S": ["\u017f"], "i": ["\u0131", "\u0130"], "I": ["\u0130", "\u0131"]}
+
+
+def partner_variants(s, limit=4):
+    """`s` with one letter replaced by an irregular case partner (at most `limit` variants, spread over the string)"""
+    pos = [k for k, c in enumerate(s) if c in CASE_PARTNERS]
+    out = []
+    step = max(1, len(pos) // limit) if pos else 1
+    for n, k in enumerate(pos[::step][:limit]):
+        alts = CASE_PARTNERS[s[k]]
+        out.append(s[:k] + alts[n % len(alts)] + s[k + 1:])
+    return out
+
+
 def expected_outputs(block):
     """Number of output lines the driver prints for a block of input lines."""
     n = 0
